@@ -77,7 +77,7 @@ def batches(tier):
 # ----------------------------------------------------------------------------
 
 CLOUD_CLASSES = ["random", "interior", "near_flat", "skewed", "simplex", "box", "clustered",
-                 "flat", "small_units"]
+                 "flat", "small_units", "prism"]
 
 
 def make_cloud(rng: PlanRng, dim, cls):
@@ -105,6 +105,22 @@ def make_cloud(rng: PlanRng, dim, cls):
         from itertools import product
         Pm = np.array(list(product([0.0, 1.0], repeat=dim))) * rng.g.uniform(0.5, 3.0, dim)
         Pm = np.vstack([Pm, Pm.mean(0)[None]])
+    elif cls == "prism":
+        # polygon x segment (x square in 4-D): facets are exact parallelograms, so the
+        # triangulation of the hull vertices contains simplices of exactly zero volume
+        k = rng.choice([5, 6, 8])
+        ang = 2 * np.pi * np.arange(k) / k + rng.g.uniform(0, 1)
+        poly = np.c_[np.cos(ang), np.sin(ang)] * rng.g.uniform(0.5, 2.0, 2)
+        Pm = poly
+        for extra in range(dim - 2):
+            h = float(rng.g.uniform(0.5, 2.0))
+            Pm = np.vstack([np.c_[Pm, np.zeros(len(Pm))], np.c_[Pm, np.full(len(Pm), h)]])
+        Pm = sig(Pm)
+        if dim > 2:
+            # rounding must keep the two caps exact copies of each other
+            half = len(Pm) // 2
+            Pm[half:, :dim - 1] = Pm[:half, :dim - 1]
+        return Pm + sig(rng.g.uniform(-2, 2, dim), 3)
     elif cls == "small_units":
         # an ordinary cloud expressed in small units (simplex volumes around 1e-9..1e-6, some
         # cells much smaller than others): absolute tolerances in the code show up here
@@ -186,7 +202,7 @@ def generate(rs, mode, tier, index):
     dim = rng.integers(2, 4)
     clouds = {}
     for j in range(rng.integers(1, 3)):
-        cls = rng.choice(CLOUD_CLASSES, p=[3, 2, 2, 2, 1, 1, 1, 1, 2])
+        cls = rng.choice(CLOUD_CLASSES, p=[3, 2, 2, 2, 1, 1, 1, 1, 2, 1.5])
         if mode == "uniform" and j == 0:
             # the uniformity batch walks through the classes so that every invocation tests each
             vol = [c for c in CLOUD_CLASSES if c != "flat"]
